@@ -12,11 +12,12 @@ import Ldap3V.Driver.Conn
 import Ldap3V.Driver.Stream
 import Ldap3V.Driver.Setup
 import Ldap3V.Driver.Sync
+import Ldap3V.Driver.Explore
 open Ldap3V.Driver
 
 def handlers : List (String → String → Option String) :=
   [handleBer, handleEnvelope, handleFilter, handleEscape, handleEntry, handleCodecs, handleUrl,
-   handleRequests, handleResults, handleConn, handleStream, handleSetup, handleSync]
+   handleRequests, handleResults, handleConn, handleStream, handleSetup, handleSync, handleExplore]
 
 def dispatch (line : String) : String :=
   let (cmd, arg) := splitCmd line
